@@ -141,7 +141,7 @@ def save_performance_midi(
 
         for c in performed_part.meta_other:
             track = c.get("track", 0)
-            t = int(np.round(10**6 * ppq * c["time"] / mpq))
+            t = int(np.round(10**6 * ppq * float(c["time"]) / mpq))
             msg_info = dict(
                 [
                     (key, val)
@@ -153,7 +153,7 @@ def save_performance_midi(
 
         for c in performed_part.key_signatures:
             track = c.get("track", 0)
-            t = int(np.round(10**6 * ppq * c["time"] / mpq))
+            t = int(np.round(10**6 * ppq * float(c["time"]) / mpq))
             track_events[track][t].append(
                 MetaMessage(
                     type="key_signature",
@@ -166,7 +166,7 @@ def save_performance_midi(
 
         for c in performed_part.time_signatures:
             track = c.get("track", 0)
-            t = int(np.round(10**6 * ppq * c["time"] / mpq))
+            t = int(np.round(10**6 * ppq * float(c["time"]) / mpq))
             track_events[track][t].append(
                 MetaMessage(
                     type="time_signature",
@@ -178,7 +178,7 @@ def save_performance_midi(
         for c in performed_part.controls:
             track = c.get("track", 0)
             ch = c.get("channel", 1)
-            t = int(np.round(10**6 * ppq * c["time"] / mpq))
+            t = int(np.round(10**6 * ppq * float(c["time"]) / mpq))
             track_events[track][t].append(
                 Message(
                     "control_change",
@@ -191,8 +191,8 @@ def save_performance_midi(
         for n in performed_part.notes:
             track = n.get("track", 0)
             ch = n.get("channel", 1)
-            t_on = int(np.round(10**6 * ppq * n["note_on"] / mpq))
-            t_off = int(np.round(10**6 * ppq * n["note_off"] / mpq))
+            t_on = int(np.round(10**6 * ppq * float(n["note_on"]) / mpq))
+            t_off = int(np.round(10**6 * ppq * float(n["note_off"]) / mpq))
             vel = n.get("velocity", default_velocity)
             track_events[track][t_on].append(
                 Message("note_on", note=n["midi_pitch"], velocity=vel, channel=ch)
@@ -204,7 +204,7 @@ def save_performance_midi(
         for p in performed_part.programs:
             track = p.get("track", 0)
             ch = p.get("channel", 1)
-            t = int(np.round(10**6 * ppq * p["time"] / mpq))
+            t = int(np.round(10**6 * ppq * float(p["time"]) / mpq))
             track_events[track][t].append(
                 Message("program_change", program=int(p["program"]), channel=ch)
             )
